@@ -93,7 +93,7 @@ def _o_c02(rng, c, variant):
 
 NP = {False, True}
 DIV3 = {"none", "second", "first", "outer"}
-DIVX = DIV3 | {"resume", "cycle"}       # + a value that returns after a divider / after another value
+DIVX = DIV3 | {"resume", "cycle", "collide"}       # + a value that returns after a divider / after another value
 PR = {"column", "first_row"}
 S3 = {"plain", "pageby", "subline"}
 FS3 = {"none", "table", "para"}
@@ -163,15 +163,15 @@ PROPS = {
                    props=["PagesMonotone"]),
         gen=dict(
             quick=[dict(consts=C(NSet={4}, Heights={1, 2}, NrowSet={3, 4, 6}, Strategies=S3, LevelSet={1}, HdrSet={"none", "explicit"},
-                                 FootSet={"none"}, NewPageSet=NP, PbRowSet=PR, DivSet={"none", "second", "resume", "cycle"}), prefixes=0.25),
+                                 FootSet={"none"}, NewPageSet=NP, PbRowSet=PR, DivSet={"none", "second", "resume", "cycle", "nullkey"}), prefixes=0.25),
                    dict(consts=C(NSet={5, 6, 7, 11}, Heights={1, 2, 3}, NrowSet={2, 3, 6, 10, 17, 30}, Strategies=ALL_STRAT, LevelSet={1, 2, 3},
                                  HdrSet={"none", "default", "explicit", "explicit2"}, FootSet=FS3, SrcSet=FS3, NewPageSet=NP, PbRowSet=PR,
-                                 PlaceSet=PL3, PbHdrSet=NP, DivSet=DIVX, DupSet=NP), simulate=700, prefixes=0.3)],
+                                 PlaceSet=PL3, PbHdrSet=NP, DivSet=DIVX | {"nullkey"}, DupSet=NP, GPosSet={"first", "middle", "split"}), simulate=700, prefixes=0.3)],
             thorough=[dict(consts=C(NSet={2, 3, 4}, Heights={1, 2, 3}, NrowSet={2, 3, 4, 6}, Strategies=S3, LevelSet={1, 2}, HdrSet={"none", "explicit"},
                                     FootSet={"none"}, NewPageSet=NP, PbRowSet=PR), prefixes=0.1),
                       dict(consts=C(NSet={6, 7, 11, 19, 30}, Heights={1, 2, 3}, NrowSet={2, 3, 6, 10, 17, 30}, Strategies=ALL_STRAT, LevelSet={1, 2, 3},
                                     HdrSet={"none", "default", "explicit", "explicit2"}, FootSet=FS3, SrcSet=FS3, NewPageSet=NP, PbRowSet=PR,
-                                    PlaceSet=PL3, PbHdrSet=NP, DivSet=DIVX, DupSet=NP), simulate=9000, prefixes=0.2)]),
+                                    PlaceSet=PL3, PbHdrSet=NP, DivSet=DIVX | {"nullkey"}, DupSet=NP, GPosSet={"first", "middle", "split"}), simulate=9000, prefixes=0.2)]),
         nontrivial=lambda c, pred: pred is not None and pred and pred[-1]["p"] >= 2,
     ),
     "C05": dict(
@@ -185,6 +185,7 @@ PROPS = {
         gen=dict(
             quick=[dict(consts=C(NSet={1, 4}, Heights={1}, NrowSet={3, 5}, Strategies={"pageby", "subline", "subpb"}, LevelSet={1, 2},
                                  HdrSet={"explicit"}, NewPageSet=NP, PbRowSet=PR, DivSet=DIV3)),
+                   dict(consts=C(NSet={4}, Heights={1}, NrowSet={3, 5, 30}, Strategies={"subline"}, HdrSet={"explicit", "none"}, DivSet={"collide", "cycle"})),
                    dict(consts=C(NSet={6, 9, 15}, Heights={1, 2}, NrowSet={3, 4, 5, 8, 12, 30}, Strategies={"pageby", "subline", "subpb"},
                                  LevelSet={1, 2, 3}, HdrSet={"none", "explicit", "default"}, FootSet={"none", "table"},
                                  NewPageSet=NP, PbRowSet=PR, DivSet=DIVX, PbHdrSet=NP, GPosSet={"first", "rev", "split"}), simulate=700)],
@@ -581,8 +582,9 @@ def space_size(k):
             if pb:
                 lev = sum((L + 1) ** max(0, n - 1) for L in k["LevelSet"])
                 np_ = sum((len(k["PbRowSet"]) if v else 1) for v in k["NewPageSet"])
-                base *= lev * len(k["DivSet"]) * np_
-            elif sb and "cycle" in k["DivSet"]:
-                base *= len(set(k["DivSet"]) & {"none", "cycle"})
+                ndiv = len(set(k["DivSet"]) - {"nullkey"})
+                base *= lev * (ndiv * np_ + (1 if "nullkey" in k["DivSet"] else 0))
+            elif sb and set(k["DivSet"]) & {"cycle", "collide"}:
+                base *= len(set(k["DivSet"]) & {"none", "cycle", "collide"})
             total += base
     return int(total * flat * hdr_factor * foot_factor * src_factor)
